@@ -88,7 +88,9 @@ def cauchyStep (i : CauchyIn α) (t : List (Option α)) (f2org : α) (s : Cauchy
   | none => { s with found := true }
   | some tcur =>
     let dt := tcur - s.tOld
-    if s.dtm < dt then { s with found := true } else
+    -- (a zero-length segment — tied breakpoints — cannot contain the minimiser: `f'` then still
+    -- counts the motion of variables that reach their bound at this very `t`)
+    if s.dtm < dt ∧ 0 < dt then { s with found := true } else
     let db := s.d.getD ib 0
     let xb := if 0 < db then i.ub.getD ib 0 else if db < 0 then i.lb.getD ib 0 else s.xcp.getD ib 0
     let xcp := s.xcp.set ib xb
